@@ -273,19 +273,27 @@ func pipelineScenario(t int, seed int64) ([]map[string]any, error) {
 		ev := map[string]any{"ev": "pl.batch", "b": b, "src": src, "items": items, "stored_before": before, "offer_err": oerr != nil, "accepted": accepted}
 		out = append(out, ev)
 		// settle: the validator has been quiet for a while and every gossip offer that started has returned
+		// (when keys were accepted the content WILL arrive: the 1.5 s shortcut is for batches of which nothing was accepted; a
+		// transfer that has not arrived after 8 s is no observation and ends the scenario - it would be taken for the next batch's)
+		expectArrival := oerr == nil && len(accepted) > 0
+		called := false
 		deadline := time.Now().Add(8 * time.Second)
 		for time.Now().Before(deadline) {
 			time.Sleep(40 * time.Millisecond)
 			mv.mu.Lock()
 			quietFor := time.Since(mv.last)
-			called := mv.calls > callsBefore
+			called = mv.calls > callsBefore
 			mv.mu.Unlock()
 			hmu.Lock()
 			balanced := starts == returns
 			hmu.Unlock()
-			if balanced && portalwire.VerifOfferQueueLen(B.P) == 0 && ((called && quietFor > 150*time.Millisecond) || time.Since(deadline.Add(-8*time.Second)) > 1500*time.Millisecond) {
+			if balanced && portalwire.VerifOfferQueueLen(B.P) == 0 && ((called && quietFor > 150*time.Millisecond) || (!expectArrival && time.Since(deadline.Add(-8*time.Second)) > 1500*time.Millisecond)) {
 				break
 			}
+		}
+		if expectArrival && !called {
+			out = append(out, map[string]any{"ev": "pl.noobs", "b": b})
+			return out, nil
 		}
 		gmu.Lock()
 		newOffers := offers[seenOffers:]
